@@ -227,6 +227,91 @@ func (kitH264) genOf(c interface{}) int {
 	return 0
 }
 
+// ---- H265 ---------------------------------------------------------------------------------------
+
+// Parameter sets: mediacommon's SPS test vectors "1280x720" (30 fps) and "nvenc" (1920x1080, 60 fps); both have
+// sps_max_num_reorder_pics = 0, so that the DTS extractor returns DTS = PTS without reading slice headers.
+type kitH265 struct{}
+
+var (
+	h265VPSGen = map[int][]byte{1: {0x40, 0x01, 0x0c, 0x01, 0xff, 0xff, 0x01}, 2: {0x40, 0x01, 0x0c, 0x01, 0xff, 0xff, 0x02}}
+	h265SPSGen = map[int][]byte{
+		1: {
+			0x42, 0x01, 0x01, 0x04, 0x08, 0x00, 0x00, 0x03, 0x00, 0x98, 0x08, 0x00, 0x00, 0x03, 0x00, 0x00,
+			0x5d, 0x90, 0x00, 0x50, 0x10, 0x05, 0xa2, 0x29, 0x4b, 0x74, 0x94, 0x98, 0x5f, 0xfe, 0x00, 0x02,
+			0x00, 0x02, 0xd4, 0x04, 0x04, 0x04, 0x10, 0x00, 0x00, 0x03, 0x00, 0x10, 0x00, 0x00, 0x03, 0x01,
+			0xe0, 0x80,
+		},
+		2: {
+			0x42, 0x01, 0x01, 0x01, 0x40, 0x00, 0x00, 0x03, 0x00, 0x00, 0x03, 0x00, 0x00, 0x03, 0x00, 0x00,
+			0x03, 0x00, 0x7b, 0xa0, 0x03, 0xc0, 0x80, 0x11, 0x07, 0xcb, 0x96, 0xb4, 0xa4, 0x25, 0x92, 0xe3,
+			0x01, 0x6a, 0x02, 0x02, 0x02, 0x08, 0x00, 0x00, 0x03, 0x00, 0x08, 0x00, 0x00, 0x03, 0x01, 0xe3,
+			0x00, 0x2e, 0xf2, 0x88, 0x00, 0x07, 0x27, 0x0c, 0x00, 0x00, 0x98, 0x96, 0x82,
+		},
+	}
+	h265PPS = []byte{0x44, 0x01, 0xc1, 0x72, 0xb4, 0x62, 0x40}
+)
+
+func (kitH265) kind() string { return "v" }
+func (kitH265) rate() int    { return 90000 }
+func (kitH265) newCodec() codecs.Codec {
+	return &codecs.H265{VPS: h265VPSGen[1], SPS: h265SPSGen[1], PPS: h265PPS}
+}
+
+func (kitH265) build(track, id int, ra bool, ps int, size int, _ int) [][]byte {
+	var au [][]byte
+	if ps != 0 {
+		au = append(au, h265VPSGen[ps], h265SPSGen[ps], h265PPS)
+	}
+	hdr := []byte{0x02, 0x01} // TRAIL_R
+	if ra {
+		hdr = []byte{0x26, 0x01} // IDR_W_RADL
+	}
+	au = append(au, append(hdr, idBytes(track, id, size)...))
+	return au
+}
+
+func (kitH265) write(m *gohlslib.Muxer, tr *gohlslib.Track, ntp time.Time, pts int64, aus [][][]byte) error {
+	return m.WriteH265(tr, ntp, pts, aus[0])
+}
+
+func (kitH265) payloadSize(au [][]byte, _ string) int {
+	n := 0
+	for _, nalu := range au {
+		n += 4 + len(nalu)
+	}
+	return n
+}
+
+func (kitH265) fromFMP4(s *fmp4.PartSample) ([][]byte, error) { return s.GetH265() }
+
+func (kitH265) ident(au [][]byte) (int, int, bool) {
+	for _, nalu := range au {
+		if len(nalu) > 2 {
+			if t := (nalu[0] >> 1) & 0x3f; t == 1 || t == 19 {
+				return parseID(nalu[2:])
+			}
+		}
+	}
+	return 0, 0, false
+}
+func (kitH265) unitDur(int) int64 { return 0 }
+func (kitH265) genOf(c interface{}) int {
+	var sps []byte
+	switch cc := c.(type) {
+	case *codecs.H265:
+		sps = cc.SPS
+	case *fmp4.CodecH265:
+		sps = cc.SPS
+	}
+	for g, s := range h265SPSGen {
+		if bytes.Equal(s, sps) {
+			return g
+		}
+	}
+	return 0
+}
+
 // ---- VP9 ----------------------------------------------------------------------------------------
 
 type kitVP9 struct{}
@@ -464,6 +549,8 @@ func kitFor(codec string, rate int) (kit, error) {
 	switch codec {
 	case "h264":
 		return kitH264{}, nil
+	case "h265":
+		return kitH265{}, nil
 	case "vp9":
 		return kitVP9{}, nil
 	case "av1":
@@ -497,6 +584,11 @@ func sameAU(a, b [][]byte) bool {
 var expectedParams = map[string]struct{ codecs, res, fps []string }{
 	// SPS: profile_idc 66 (0x42), constraint flags 0xc0, level_idc 30 (0x1e); 80x45 / 40x30 macroblocks; 25 / 30 fps
 	"h264": {[]string{"avc1.42c01e", "avc1.42c01e"}, []string{"1280x720", "640x480"}, []string{"25.000", "30.000"}},
+	// general_profile_idc 4 / 1; compatibility flags 0x08000000 / 0x40000000 in reverse bit order = 10 / 2; main tier, level_idc
+	// 93 / 123; constraint bytes 98 08 00.. / all zero; ISO 14496-15 E.3 asks for "a hexadecimal number" per byte, trailing zero
+	// bytes optional: the library prints unpadded hex and keeps one zero byte (form pinned from one observation);
+	// 1280x720 at 30 fps, 1920x1088 cropped by 8 lines at 60 fps (VUI timing 1/30, 1/60)
+	"h265": {[]string{"hvc1.4.10.L93.98.8", "hvc1.1.2.L123.0"}, []string{"1280x720", "1920x1080"}, []string{"30.000", "60.000"}},
 	// profile 0, level 1.0 (constant in the encoder: "10"), bit depth 8; frame size from the key frame header
 	"vp9": {[]string{"vp09.00.10.08", "vp09.00.10.08"}, []string{"1920x1080", "1920x804"}, []string{"", ""}},
 	// both sequence headers: profile 0, level index 8, main tier, 8 bit, 4:2:0 (string pinned from one observation,
